@@ -191,6 +191,14 @@ def engine_sim(c, name, menu, lines="Lines4", maxlines=10, num=2000, modes=("bat
                                               "behaviours_replayed": rep.get("cases", 0), "tlc_s": round(r.wall, 1), "replay_s": round(time.time() - t_r, 1)})
 
 
+def sem_trace(c, tier):
+    """impl -> spec, semantic, over tables nobody wrote by hand: a random definition (any pattern, columns of any type), 2-8 (now and then 20-45) random lines, a statement put
+    together clause by clause to fit the column types; the rows the engine extracted are in the event, Trace_Sem.tla computes the statement's meaning over them with Sem.tla"""
+    t = tier == "thorough"
+    trace_check(c, "sem", "Trace_Sem", 12000 if t else 2500, "sem", "random statements over random tables vs Sem.tla (trace)", constants={"Dev": set()},
+                rounds=3 if t else 1, env={"TZ": "UTC"}, per_pid=True)
+
+
 def engine_scale(c):
     """thorough tier: one input of 300 lines over 271 keys (FixedInputs <- MidInputs) under ScaleMenu -- LIMIT with and without DISTINCT / HAVING over more groups than
     fit any small shortcut, COUNT(DISTINCT) over hundreds of values, PERCENTILE ranks, DISTINCT over hundreds of rows; TLC evaluates Engine.tla line by line
@@ -279,6 +287,7 @@ def check_C04(tier):
     engine_sim(c, "count-distinct-wide", "DistinctCountMenu", lines="LinesDistinctWide", maxlines=48, num=1000 if t else 60, modes=("batch",), invs=["TypeOK", "BatchRefinesSem"], minlines=40)
     if t:
         engine_scale(c)
+    sem_trace(c, tier)
     engine_union(c, t)
     c.rule, c.assumptions, c.exhaustive = ENGINE_RULE, ENGINE_ASSUME, True
     return c.finish()
@@ -298,6 +307,7 @@ def check_C03(tier):
     trace_check(c, "expr", "Trace_Expr", 12000 if t else 4000, "expr", "random expression trees vs Expr.Eval", constants={"Dev": set()}, rounds=3 if t else 1, env={"TZ": "UTC"})
     laws_trace(c, 2 if t else 1, 300 if t else 100)
     engine_sim(c, "select", "SelectMenu", lines="LinesRich", maxlines=10, num=1500 if t else 120)
+    sem_trace(c, tier)
     engine_union(c, t)
     c.rule, c.assumptions, c.exhaustive = ENGINE_RULE, ENGINE_ASSUME, True
     return c.finish()
@@ -362,6 +372,7 @@ def check_C08(tier):
     engine_sim(c, "distinct-wide", "DistinctMenu", lines="LinesWide", maxlines=64, num=400 if t else 40, minlines=40)
     if t:
         engine_scale(c)
+    sem_trace(c, tier)
     engine_union(c, t)
     c.rule, c.assumptions, c.exhaustive = ENGINE_RULE, ENGINE_ASSUME, True
     return c.finish()
@@ -633,7 +644,7 @@ def trace_check(c, module, trace_module, n, name, what, constants=None, rounds=1
             for ln in tr.log.splitlines():
                 if "TRACE-STATS" in ln:      # events whose outcome the model predicted (the rest are only checked for totality)
                     nums = [int(x) for x in ln.replace(">>", " ").replace(",", " ").split() if x.isdigit()]
-                    c.extra[name + "_trace_events_predicted"] = c.extra.get(name + "_trace_events_predicted", 0) + (nums[0] if nums else 0)
+                    c.extra[name + "_trace_events_predicted"] = c.extra.get(name + "_trace_events_predicted", 0) + (min(nums[0], nev) if nums else 0)
                     if nums and nums[0] * 2 < nev:
                         raise ToolError("%s: the model predicted fewer than half of the recorded events (%d of %d): the trace check is nearly vacuous" % (name, nums[0], nev))
             if len(c.samples) < 8:
